@@ -146,14 +146,18 @@ def project(s1, s2, p, delta=0.0):
 
 
 def box_around_point(p, dist):
+    """Bounding box (lat_min, lon_min, lat_max, lon_max) of all points within dist of p."""
     lat, lon = p
-    latr, lonr = radians(lat), radians(lon)
-    # diag_dist = sqrt(2 * dist ** 2)
-    diag_dist = dist
-    lat_t, lon_r = destination_radians(latr, lonr, radians(45), diag_dist)
-    lat_b, lon_l = destination_radians(latr, lonr, radians(225), diag_dist)
-    lat_t, lon_r = degrees(lat_t), degrees(lon_r)
-    lat_b, lon_l = degrees(lat_b), degrees(lon_l)
+    latr = radians(lat)
+    d = dist / earth_radius
+    lat_t, lat_b = latr + d, latr - d
+    if lat_t >= math.pi / 2 or lat_b <= -math.pi / 2 or sin(d) >= cos(latr):
+        # The disc contains a pole, all longitudes are possible
+        lon_l, lon_r = -180.0, 180.0
+    else:
+        dlon = degrees(asin(sin(d) / cos(latr)))
+        lon_l, lon_r = lon - dlon, lon + dlon
+    lat_t, lat_b = min(degrees(lat_t), 90.0), max(degrees(lat_b), -90.0)
     return lat_b, lon_l, lat_t, lon_r
 
 
